@@ -20,11 +20,16 @@
       `Regex::xpath("(?:^|bc){100000000}?", "")` spins through 10^8 zero-width iterations at
       construction.
   `new_errors` and the left-to-right half of `new_iff` need neither.
+  AFTER fix abfdb8a (the reluctant minimum loop stops at a zero-width iteration; that crate run now
+  returns) the second hypothesis is discharged for every compiled program: `probe_ok_all`,
+  `new_iff_all` (only `NoSat` left), `api_isMatch_no_diverge`.  `new_iff` is kept as it was.
 -/
 import RxModel.Props.C07d
 import RxModel.Props.C03d
 import RxModel.Props.C05b
 import RxModel.Props.C06
+import RxModel.Props.C06b
+import RxModel.Proofs.ProbeLemmas
 import RxModel.Props.C07
 import RxModel.Props.WF
 namespace Rx.C07e
@@ -131,6 +136,50 @@ theorem new_iff (env : Env) (p fs : List Nat) (xsd : Bool) (hps : ∀ x ∈ p, x
     obtain ⟨hsm, hpre⟩ := hnh fl pr hf hc
     obtain ⟨n, hn⟩ := probe_ok pr env.lower hok hwf hsm hpre
     exact ⟨{ prog := pr, nullable := n }, by rw [new_eq, hf]; simp only [hc, hn]⟩
+
+/-- the nullability probe returns for EVERY compiled program (fixes a635aaf: no panic; abfdb8a: the
+    reluctant minimum loop stops at a zero-width iteration) — no `NoHugeReluctantMin` -/
+theorem probe_ok_all (env : Env) (fl : Flags) (p : List Nat) (pr : Prog)
+    (hc : compileProg env fl p true = .ok pr) (hns : Api.NoSat env fl p) (lower : Nat → Nat) :
+    ∃ n, pr.nullable lower = .ok n := by
+  have hok : progOK pr = true := C05b.compile_progOK env fl.core _ pr hc hns
+  unfold Prog.nullable
+  cases h : pr.isMatch lower [] with
+  | ok n => exact ⟨n, rfl⟩
+  | err e => exact absurd h (isMatch_ne_err _ _ _ _)
+  | panic c => exact absurd h (C05b.isMatch_no_panic_backrefs pr lower [] hok (by decide) c)
+  | diverge => exact absurd h (Rx.compile_no_diverge env fl.core _ pr hc hns lower [])
+
+/-- **C07 for `Regex::new`, without the probe hypothesis**: `NoSat` is the only side condition left -/
+theorem new_iff_all (env : Env) (p fs : List Nat) (xsd : Bool) (hps : ∀ x ∈ p, x < cpLimit)
+    (hns : ∀ fl, parseFlags fs xsd = some fl → Api.NoSat env fl p) :
+    (∃ r, Regex.new env p fs xsd true = .ok r) ↔
+      ∃ fl, parseFlags fs xsd = some fl ∧
+        (fl.literal = true ∨ ∃ a : Ast, a.okFor xsd env = true ∧ ParserQuirkFree a ∧
+          (if fl.allowWs then stripWs p 0 false else p) = a.render) := by
+  constructor
+  · rintro ⟨r, h⟩
+    cases hf : parseFlags fs xsd with
+    | none => rw [new_eq, hf] at h; cases h
+    | some fl =>
+      have hx : fl.xsd = xsd := (C07.flags_values fs xsd fl hf).1
+      have hc := C05b.new_compiled env p fs xsd fl r hf h
+      have := (compileProg_iff env fl p hps).1 ⟨_, hc⟩
+      rw [hx] at this
+      exact ⟨fl, rfl, this⟩
+  · rintro ⟨fl, hf, h⟩
+    have hx : fl.xsd = xsd := (C07.flags_values fs xsd fl hf).1
+    rw [← hx] at h
+    obtain ⟨pr, hc⟩ := (compileProg_iff env fl p hps).2 h
+    obtain ⟨n, hn⟩ := probe_ok_all env fl p pr hc (hns fl hf) env.lower
+    exact ⟨{ prog := pr, nullable := n }, by rw [new_eq, hf]; simp only [hc, hn]⟩
+
+/-- `is_match` never diverges on whatever `Regex::new` accepts: C06 from the pattern text, for every
+    accepted pattern and every input -/
+theorem api_isMatch_no_diverge (env : Env) (p fs : List Nat) (xsd : Bool) (fl : Flags) (r : Regex)
+    (hf : parseFlags fs xsd = some fl) (h : Regex.new env p fs xsd true = .ok r) (hns : Api.NoSat env fl p)
+    (input : List Nat) : r.prog.isMatch env.lower input ≠ .diverge :=
+  Rx.compile_no_diverge env fl.core _ r.prog (C05b.new_compiled env p fs xsd fl r hf h) hns env.lower input
 
 /-- left to right needs no side condition -/
 theorem new_ok_grammar (env : Env) (p fs : List Nat) (xsd : Bool) (hps : ∀ x ∈ p, x < cpLimit)
